@@ -103,6 +103,10 @@ def gen_modalities(rng: random.Random, lo: int = 0, hi: int = 2) -> list:
         if rng.random() < 0.1:
             sn_ = sp_                      # equal specificity and sensitivity (a coincidence that hides field mix-ups)
         mods.append([nm, sp_, sn_, rng.choice(["clinical", "pathological"])])
+    if len(mods) >= 2 and rng.random() < 0.15:
+        # two modalities of different kind sharing specificity AND sensitivity (anything keyed on (spec, sens) mixes them up)
+        mods[1][1], mods[1][2] = mods[0][1], mods[0][2]
+        mods[1][3] = "clinical" if mods[0][3] == "pathological" else "pathological"
     return mods
 
 
